@@ -15,8 +15,8 @@ func init() {
 }
 
 var pinnedHashPreimage = []string{
-	"V(subtreeHeight) V(size) V(param:version) ?leaf B(key) H(sha256.Sum256(value))",
-	"V(subtreeHeight) V(size) V(param:version) ?inner H(leftNode.hash) H(rightNode.hash)",
+	"V(subtreeHeight) V(size) V(arg1) ?leaf B(key) H(sha256.Sum256(value))",
+	"V(subtreeHeight) V(size) V(arg1) ?inner H(leftNode.hash) H(rightNode.hash)",
 }
 
 func checkC02(c *Ctx) {
@@ -27,8 +27,8 @@ func checkC02(c *Ctx) {
 
 	checkFormat(c, l, "FORMAT-hash-preimage", "Node.writeHashBytes", l.Func("", "*Node.writeHashBytes"), false, pinnedHashPreimage)
 	checkFormat(c, l, "FORMAT-hash-preimage", "ProofInnerNode.Hash", l.Func("", "ProofInnerNode.Hash"), false, []string{
-		"V(Height) V(Size) V(Version) ?len(Left)=0 B(param:childHash) B(Right)",
-		"V(Height) V(Size) V(Version) ?len(Left)>0 ?len(Right)=0 B(Left) B(param:childHash)",
+		"V(Height) V(Size) V(Version) ?len(Left)=0 B(arg0) B(Right)",
+		"V(Height) V(Size) V(Version) ?len(Left)>0 ?len(Right)=0 B(Left) B(arg0)",
 	})
 	checkFormat(c, l, "FORMAT-hash-preimage", "ProofLeafNode.Hash", l.Func("", "ProofLeafNode.Hash"), false, []string{"V(0) V(1) V(Version) B(Key) B(ValueHash)"})
 
@@ -141,6 +141,12 @@ func checkC02(c *Ctx) {
 	checkStaleHashV1(c)
 	// a Remove of an absent key must not replace the (persisted) root by an unsaved copy: the next commit would re-stamp it
 	checkRemoveAbsent(c)
+
+	// ---- (2c) documented rebalancing: which rotations, on which node, in which order
+	c.rule("TABLE-balance", "rebalancing decision over balance factor × child balance factor", 15)
+	checkBalanceTable(c, l, "TABLE-balance", "v1", l.Func("", "*MutableTree.balance"))
+
+	checkTreeRules(c, l, map[string]bool{"insert": true, "remove": true, "rotate": true})
 
 	// ---- (3)
 	nodeT := l.NamedType("", "Node")
